@@ -466,6 +466,23 @@ fn uint_ops_more<const N: usize>(v: &mut Vec<Op>) {
     op!(v, "uint-wrappers", nm("Wrapping+Checked add/sub/mul"), [Arg::Any(N), Arg::Any(N)], [], wrappers::<N>);
 
     #[inline(never)]
+    fn checked_state<const N: usize>(i: &Inputs) {
+        // the is_some flag of a Checked value is the (secret) outcome of earlier checked operations
+        let mk = |v: &[u64], f: u64| Checked::<Uint<N>>(crypto_bigint::subtle::CtOption::new(u::<N>(v), sub_choice(f)));
+        let (a, b) = (mk(&i.s[0], i.s[2][0]), mk(&i.s[1], i.s[3][0]));
+        sink((a + b, a + &b, &a + b, &a + &b, a - b, a - &b, &a - b, &a - &b, a * b, a * &b, &a * b, &a * &b));
+        let mut x = a;
+        x += b;
+        x += &b;
+        x -= b;
+        x -= &b;
+        x *= b;
+        x *= &b;
+        sink(x);
+    }
+    op!(v, "uint-wrappers", nm("Checked all operator forms(secret is_some flags)"), [Arg::Any(N), Arg::Any(N), Arg::Bit, Arg::Bit], [], checked_state::<N>);
+
+    #[inline(never)]
     fn nz_select<const N: usize>(i: &Inputs) {
         let a = NonZero::new(u::<N>(&i.s[0])).unwrap();
         let b = NonZero::new(u::<N>(&i.s[1])).unwrap();
@@ -935,6 +952,16 @@ fn boxed_ops(v: &mut Vec<Op>, n: usize, heavy: bool) {
     }
 }
 
+/// BoxedUint multiplication with operands of different lengths (Karatsuba trailing-limb paths)
+fn boxed_mul_mixed(v: &mut Vec<Op>, la: usize, lb: usize) {
+    #[inline(never)]
+    fn mul(i: &Inputs) {
+        let (a, b) = (bx(&i.s[0]), bx(&i.s[1]));
+        sink((a.mul(&b), a.wrapping_mul(&b), a.checked_mul(&b)));
+    }
+    op!(v, "boxed-mul", format!("boxed/mul(mixed lengths)/{la}x{lb} limbs"), [Arg::Any(la), Arg::Any(lb)], [], mul);
+}
+
 /// The registry. `thorough` adds the wide and slow instantiations.
 pub fn ops(thorough: bool) -> Vec<Op> {
     let mut v = Vec::new();
@@ -960,6 +987,9 @@ pub fn ops(thorough: bool) -> Vec<Op> {
     }
     boxed_ops(&mut v, 8, false);
     boxed_ops(&mut v, 33, false);
+    for (la, lb) in [(3usize, 5usize), (5, 3), (35, 33), (33, 35), (36, 33), (34, 32), (64, 33)] {
+        boxed_mul_mixed(&mut v, la, lb);
+    }
     if thorough {
         uint_ops::<16>(&mut v);
         uint_ops::<32>(&mut v);
